@@ -26,10 +26,10 @@ class C03(OptCheck):
                 env = [] if ev is None or not bound else [("N_X", ev)]
                 en = "N_X" if bound else None
                 d = Decl([("out", "o", en, "dflt" if hasdef else None, bool(optional))], [], [("verbose", "v", None, 0, False)], 1, False)
-                for argv in ([["--out=cmd"], ["-o", "cmd"]] if given else [[], ["-v"]]):
+                for argv in ([["--out=cmd"], ["-o", "cmd"], ["--out="], ["-o="], ["--out=dflt"]] if given else [[], ["-v"]]):
                     yield case(d, env, [argv]), "matrix-option"
                 d = Decl([], [("inc", "i", en, ["d1", "d2"] if hasdef else None, bool(optional))], [("verbose", "v", None, 0, False)], 1, False)
-                for argv in ([["--inc=c1", "-i", "c2"], ["--inc="]] if given else [[], ["-v"]]):
+                for argv in ([["--inc=c1", "-i", "c2"], ["--inc="], ["--inc=d1", "-i=d2"], ["-i", "d1"]] if given else [[], ["-v"]]):
                     yield case(d, env, [argv]), "matrix-multi"
                 for rev in (0, 1):
                     d = Decl([("out", "o", None, None, True)], [], [("verbose", "v", en, (2 if optional else 1) if hasdef else 0, bool(rev))], 1, False)
